@@ -647,6 +647,41 @@ def doQ (fields : List String) : String :=
     | _, _ => "bad-op"
   | _ => "bad-op"
 
+/-- one decode step of a history on a long-lived interner.  The model's interner holds live entries only (a dead weak
+    entry is an absent one): it is what decoding the values alive at this moment, one after the other, leaves behind.
+    fields: env, type, value, junk, alive values `ty~val^ty~val…` -/
+def doK (fields : List String) : String :=
+  match fields with
+  | [envS, tyS, valS, hexS, aliveS] =>
+    match parseEnv envS, parseND tyS.toList, unhex hexS with
+    | some envT, some (d, []), some junk =>
+      let envD := envND envT
+      let alive : Option (List (ND × HV)) :=
+        (if aliveS = "" then [] else splitOn1 aliveS '^').mapM (fun e =>
+          match splitOn1 e '~' with
+          | [ts, vs] =>
+            (match parseND ts.toList with
+             | some (ad, []) => (match parseHV envD ad vs.toList with | some (hv, []) => some (ad, hv) | _ => none)
+             | _ => none)
+          | _ => none)
+      match parseHV envD d valS.toList, alive with
+      | some (hv, []), some alive =>
+        let env : Nat → NTy := fun tid => (envD tid).toNTy
+        let t := d.toNTy
+        let v := hv.toNVal
+        if !wtN env t v || alive.any (fun (ad, av) => !wtN env ad.toNTy av.toNVal) then "ill-typed" else
+        let hash := mkNHash (hv.table ++ (alive.map (fun (_, av) => av.table)).flatten)
+        let I0 : Option NInterner := aliveInterner env hash nFuel (alive.map (fun (ad, av) => (ad.toNTy, av.toNVal))) []
+        match I0 with
+        | none => "alive-failed"
+        | some I0 =>
+          let bytes := encodeTop env hash t v
+          let stream := bytes ++ junk
+          hex bytes ++ "|" ++ nOutcome envD d stream.length (dec env hash nFuel t stream I0)
+      | _, _ => "bad-op"
+    | _, _, _ => "bad-op"
+  | _ => "bad-op"
+
 end nested
 
 def handle (fix : Bool) (line : String) : String :=
@@ -659,6 +694,7 @@ def handle (fix : Bool) (line : String) : String :=
   | "N" :: rest => doN false rest
   | "O" :: rest => doN true rest
   | "Q" :: rest => doQ rest
+  | "K" :: rest => doK rest
   | _ => "bad-op"
 
 end CodecDriver
